@@ -57,7 +57,7 @@ Inductive callee :=
 | FReadObject | FReadReference | FClassThenDecode | FErrorString | FDecodeError
 | FSliceList | FArrayList | FByteArrayBytes | FByteArrayChar | FByteArrayString | FArrayFallback
 | FMap | FListAsMap | FObjectAsMap | FObject | FMapAsObject | FListList
-| FPtrNull | FPtrElem
+| FPtrNull | FPtrElem | FPtrRef
 | FComplexList.
 
 Inductive action :=
